@@ -284,6 +284,19 @@ pub fn run(args: &Args) {
                 }
             }
         }
+        if s.len() <= 6 && s.is_ascii() {
+            // every substring of length >= 2 as a needle (self-overlapping needles included)
+            let mut seen = std::collections::BTreeSet::new();
+            for a in 0..s.len() {
+                for b in (a + 2)..=s.len() {
+                    if seen.insert(s[a..b].to_string()) {
+                        for n in [1, 2] {
+                            items.push((Item::Instr(n, s[a..b].to_string()), rng.below(4)));
+                        }
+                    }
+                }
+            }
+        }
         for it in [Item::Len, Item::LenCat("xy".into()), Item::Ucase, Item::Lcase, Item::Ltrim, Item::Rtrim] {
             items.push((it, rng.below(4)));
         }
